@@ -743,7 +743,9 @@ def make_pipeline_from_args(  # noqa: C901
                 "Ignoring option --max-ee because input does not provide quality values"
             )
         else:
-            predicate = TooManyExpectedErrors(args.max_expected_errors)
+            predicate = TooManyExpectedErrors(
+                args.max_expected_errors, args.quality_base
+            )
             if paired:
                 step = PairedEndFilter(
                     predicate, predicate, pair_filter_mode=pair_filter_mode
@@ -758,7 +760,9 @@ def make_pipeline_from_args(  # noqa: C901
                 "Ignoring option --max-er because input does not contain quality values"
             )
         else:
-            predicate = TooHighAverageErrorRate(args.max_average_error_rate)
+            predicate = TooHighAverageErrorRate(
+                args.max_average_error_rate, args.quality_base
+            )
             if paired:
                 step = PairedEndFilter(
                     predicate, predicate, pair_filter_mode=pair_filter_mode
